@@ -5,11 +5,13 @@ here=$(cd "$(dirname "$0")" && pwd)
 "$here/tools/gen_coqproject.sh"
 cd "$here/coq"
 coq_makefile -f _CoqProject -o Makefile >/dev/null
-timeout 3000 make -j16 > "$here/coq/build.log" 2>&1 || { tail -40 "$here/coq/build.log"; exit 1; }
+# -k: a file that fails to compile must not prevent the others from being built; every
+# check re-builds (and insists on) its own Props target, so a failure shows up there.
+timeout 3000 make -k -j16 > "$here/coq/build.log" 2>&1 || { echo "WARNING: some Coq files failed to build:"; grep -B2 -A6 "^Error" "$here/coq/build.log" | head -40; }
 cd "$here"
 for spec in $(cat runner/models.txt); do
   name=$(echo "$spec" | cut -d: -f1); vfile=$(echo "$spec" | cut -d: -f2)
   entry=$(echo "$spec" | cut -d: -f4)
-  if [ -f "coq/Extract/$vfile" ]; then ./runner/build.sh "$name" "$vfile" $entry; fi
+  if [ -f "coq/Extract/$vfile" ]; then ./runner/build.sh "$name" "$vfile" $entry || echo "WARNING: runner $name failed to build"; fi
 done
 echo "setup ok"
